@@ -1,9 +1,563 @@
-/- C18 - model (stub: not built yet) -/
+/-
+C18 - model of the plugin signer (signer/plugin.go, signer/signer.go, plugin/proto/algorithm.go):
+`PluginSigner.Sign` / `SignBlob` against a scripted `plugin.SignPlugin`.
+
+* envelope-generator path (`generateSignatureEnvelope`): format echo, ParseEnvelope, self-verify,
+  payload content type, Go struct-decode of the payload into `envelope.Payload` (`goDecodePayload`,
+  a model of encoding/json for that type: ordered keys WITH duplicates, exact field name first
+  else case-insensitive, values are decoded INTO the current field value, `null` is a no-op on
+  strings/ints and zeroes maps), descriptor equality + annotation preservation
+  (`isPayloadDescriptorValid`), and the unknown-field scan over the *map* decoding with exact keys
+  (`areUnknownAttributesAdded`, last duplicate wins) - including the type assertion that panics
+  when it is not the checked two-value form (fact `c18AssertionChecked`); since 95bb17e also
+  `findDuplicateKey` (any object, at any depth, repeating a member name is refused; fact
+  `c18DuplicateKeysRejected`).
+* signature-generator path (`getKeySpec`, `generateSignature`, `pluginPrimitiveSigner.Sign`,
+  `GenericSigner.Sign`): key id echo of DescribeKey, key spec decoding, key id echo of
+  GenerateSignature, certificate chain parsing, chain / algorithm validation and self-verification
+  of the locally built envelope by notation-core-go.
+
+The cryptographic facts of a scenario are abstract inputs (`sigMode`, `chain`); the JSON payload
+is a full AST.  The outcome type keeps a panic distinct from an error.
+-/
 import NotationModel.Basic
+import NotationModel.Generated.C18
 open Lean
 
 namespace NotationModel.C18
 
-def judge (_ : Json) : Except String Json := .error "C18: model not built yet"
+/-! ### JSON documents as the plugin wrote them (ordered, duplicates kept) -/
+
+inductive JVal where
+  | null
+  | bool (b : Bool)
+  | num (n : Int)
+  | str (s : String)
+  | arr (xs : List JVal)
+  | obj (kvs : List (String × JVal))
+  deriving Repr, Inhabited
+
+/-- wire form: `["z"]`, `["b",true]`, `["n",12]`, `["s","text"]`, `["a",[…]]`, `["o",[[key,val],…]]`
+(an explicit AST: `Lean.Json.parse` would drop duplicate keys and their order) -/
+partial def JVal.ofJson (j : Json) : Except String JVal := do
+  let a ← j.getArr?
+  let tag ← match a[0]? with
+    | some t => t.getStr?
+    | none => throw "JVal: empty node"
+  let arg : Except String Json := match a[1]? with
+    | some x => pure x
+    | none => throw s!"JVal: node {tag} without argument"
+  match tag with
+  | "z" => pure .null
+  | "b" => do pure (.bool (← (← arg).getBool?))
+  | "n" => do pure (.num (← (← arg).getInt?))
+  | "s" => do pure (.str (← (← arg).getStr?))
+  | "a" => do
+    let xs ← (← arg).getArr?
+    pure (.arr (← xs.toList.mapM JVal.ofJson))
+  | "o" => do
+    let xs ← (← arg).getArr?
+    let kvs ← xs.toList.mapM (fun kv => do
+      let p ← kv.getArr?
+      match p[0]?, p[1]? with
+      | some k, some v => do pure ((← k.getStr?), (← JVal.ofJson v))
+      | _, _ => throw "JVal: object member is not a pair")
+    pure (.obj kvs)
+  | t => throw s!"JVal: unknown tag {t}"
+
+instance : FromJson JVal := ⟨JVal.ofJson⟩
+
+abbrev Members := List (String × JVal)
+
+/-- what a map-based JSON reader sees under an exact key: the last member of that name -/
+def lookupLast (k : String) : Members → Option JVal
+  | [] => none
+  | (k', v) :: r =>
+    match lookupLast k r with
+    | some w => some w
+    | none => if k' == k then some v else none
+
+def keysOf (kvs : Members) : List String := kvs.map (·.1)
+
+def nodupB : List String → Bool
+  | [] => true
+  | k :: r => !r.contains k && nodupB r
+
+mutual
+/-- `findDuplicateKey`: some JSON object of the document, at any depth, repeats a member name -/
+def JVal.dupDeep : JVal → Bool
+  | .arr xs => dupInList xs
+  | .obj kvs => !nodupB (kvs.map (·.1)) || dupInMembers kvs
+  | _ => false
+def dupInList : List JVal → Bool
+  | [] => false
+  | x :: r => x.dupDeep || dupInList r
+def dupInMembers : List (String × JVal) → Bool
+  | [] => false
+  | kv :: r => kv.2.dupDeep || dupInMembers r
+end
+
+/-! ### encoding/json: field selection -/
+
+/-- simple case folding as far as it can reach an ASCII field name: ASCII letters, U+017F (long s)
+and U+212A (Kelvin sign) - the only non-ASCII runes whose fold orbit contains an ASCII letter -/
+def foldChar (c : Char) : Char :=
+  if c = '\u017F' then 's' else if c = '\u212A' then 'k' else c.toLower
+
+def foldName (s : String) : List Char := s.toList.map foldChar
+
+/-- encoding/json: the field with exactly that name, else the first one equal under folding -/
+def matchField (names : List String) (key : String) : Option String :=
+  if names.contains key then some key else names.find? (fun n => foldName n == foldName key)
+
+/-! ### encoding/json: decoding INTO a current value (only what `envelope.Payload` needs) -/
+
+def decStr (cur : String) : JVal → Option String
+  | .null => some cur
+  | .str s => some s
+  | _ => none
+
+def int64Ok (n : Int) : Bool := decide (-9223372036854775808 ≤ n) && decide (n ≤ 9223372036854775807)
+
+def decInt64 (cur : Int) : JVal → Option Int
+  | .null => some cur
+  | .num n => if int64Ok n then some n else none
+  | _ => none
+
+def strOrNull : JVal → Bool
+  | .null => true
+  | .str _ => true
+  | _ => false
+
+/-- `[]string`: only the absence of a type error matters, the content is never looked at -/
+def strSliceOk : JVal → Bool
+  | .null => true
+  | .arr xs => xs.all strOrNull
+  | _ => false
+
+def byteOk : JVal → Bool
+  | .null => true
+  | .num n => decide (0 ≤ n) && decide (n ≤ 255)
+  | _ => false
+
+def b64Char (c : Char) : Bool := c.isAlphanum || c == '+' || c == '/'
+
+/-- base64.StdEncoding (padded, non-strict) after dropping CR / LF -/
+def b64Quanta : List Char → Bool
+  | [] => true
+  | [a, b, c, d] =>
+    b64Char a && b64Char b && ((b64Char c && (b64Char d || d == '=')) || (c == '=' && d == '='))
+  | a :: b :: c :: d :: r => b64Char a && b64Char b && b64Char c && b64Char d && b64Quanta r
+  | _ => false
+
+def b64Ok (s : String) : Bool := b64Quanta (s.toList.filter (fun c => c != '\r' && c != '\n'))
+
+/-- `[]byte`: a base64 string, or an array of small numbers -/
+def bytesOk : JVal → Bool
+  | .null => true
+  | .str s => b64Ok s
+  | .arr xs => xs.all byteOk
+  | _ => false
+
+def platformFields : List String := ["architecture", "os", "os.version", "os.features", "variant"]
+
+def platformMemberOk (kv : String × JVal) : Bool :=
+  match matchField platformFields kv.1 with
+  | none => true
+  | some f => if f == "os.features" then strSliceOk kv.2 else strOrNull kv.2
+
+/-- `*ocispec.Platform` -/
+def platformOk : JVal → Bool
+  | .null => true
+  | .obj kvs => kvs.all platformMemberOk
+  | _ => false
+
+/-- the part of a decoded `ocispec.Descriptor` that is looked at afterwards;
+`annotations`: most recent binding first -/
+structure GoDesc where
+  mediaType : String := ""
+  digest : String := ""
+  size : Int := 0
+  annotations : List (String × String) := []
+  deriving DecidableEq, Repr
+
+/-- members of a JSON object decoded into a `map[string]string` (later members overwrite) -/
+def decAnnEntries (cur : List (String × String)) : Members → Option (List (String × String))
+  | [] => some cur
+  | (k, v) :: r =>
+    match decStr "" v with
+    | some s => decAnnEntries ((k, s) :: cur) r
+    | none => none
+
+def decAnnotations (cur : List (String × String)) : JVal → Option (List (String × String))
+  | .null => some []
+  | .obj kvs => decAnnEntries cur kvs
+  | _ => none
+
+/-- JSON names of the fields of `ocispec.Descriptor` (image-spec v1.1.1), in struct order -/
+def descFields : List String :=
+  ["mediaType", "digest", "size", "urls", "annotations", "data", "platform", "artifactType"]
+
+def decDescField (cur : GoDesc) (key : String) (v : JVal) : Option GoDesc :=
+  match matchField descFields key with
+  | none => some cur                       -- unknown members are skipped
+  | some f =>
+    if f == "mediaType" then (decStr cur.mediaType v).map (fun s => { cur with mediaType := s })
+    else if f == "digest" then (decStr cur.digest v).map (fun s => { cur with digest := s })
+    else if f == "size" then (decInt64 cur.size v).map (fun n => { cur with size := n })
+    else if f == "annotations" then
+      (decAnnotations cur.annotations v).map (fun a => { cur with annotations := a })
+    else if f == "urls" then (if strSliceOk v then some cur else none)
+    else if f == "data" then (if bytesOk v then some cur else none)
+    else if f == "platform" then (if platformOk v then some cur else none)
+    else (if strOrNull v then some cur else none)      -- artifactType
+
+def decDescFields (cur : GoDesc) : Members → Option GoDesc
+  | [] => some cur
+  | (k, v) :: r =>
+    match decDescField cur k v with
+    | some c => decDescFields c r
+    | none => none
+
+def decDesc (cur : GoDesc) : JVal → Option GoDesc
+  | .null => some cur
+  | .obj kvs => decDescFields cur kvs
+  | _ => none
+
+def decPayloadFields (cur : GoDesc) : Members → Option GoDesc
+  | [] => some cur
+  | (k, v) :: r =>
+    match matchField Facts.c18PayloadFields k with
+    | none => decPayloadFields cur r
+    | some _ =>
+      match decDesc cur v with
+      | some c => decPayloadFields c r
+      | none => none
+
+/-- `json.Unmarshal(content, &envelope.Payload{})`: `none` = an error is returned -/
+def goDecodePayload : JVal → Option GoDesc
+  | .null => some {}
+  | .obj kvs => decPayloadFields {} kvs
+  | _ => none
+
+/-! ### the scenario -/
+
+inductive Api | sign | signBlob
+  deriving DecidableEq, Repr, FromJson, ToJson
+inductive Cap | envelope | raw | both | neither
+  deriving DecidableEq, Repr, FromJson, ToJson
+inductive Fmt | jws | cose
+  deriving DecidableEq, Repr, FromJson, ToJson
+inductive KS | rsa2048 | rsa3072 | rsa4096 | ec256 | ec384 | ec521
+  deriving DecidableEq, Repr, FromJson, ToJson
+/-- which plugin command fails outright -/
+inductive PluginErr | noErr | metadata | describeKey | generate
+  deriving DecidableEq, Repr, FromJson, ToJson
+/-- how the (raw or envelope) signature relates to the signed bytes:
+`good`; `flipped` (a bit changed); `otherKey` (made with another key of the same spec);
+`wrongHash` (made with a hash of another size); `emptySig` -/
+inductive SigMode | good | flipped | otherKey | wrongHash | emptySig
+  deriving DecidableEq, Repr, FromJson, ToJson
+/-- the certificate chain the plugin answers with (raw path) / embeds (envelope path):
+`ok` root→leaf for the plugin's key; `selfSigned` one self-signed leaf for it; `empty`;
+`garbage` (bytes that are no certificate); `otherKey` a valid chain for another key of the same
+spec; `otherSpec` a valid chain for a key of the next spec -/
+inductive Chain | ok | selfSigned | empty | garbage | otherKey | otherSpec
+  deriving DecidableEq, Repr, FromJson, ToJson
+
+structure Desc where
+  mediaType : String
+  digest : String
+  size : Int
+  annotations : List (String × String)
+  deriving Repr, FromJson
+
+structure Input where
+  api : Api
+  cap : Cap
+  format : Fmt               -- requested envelope format
+  key : KS                   -- the key the plugin signs with
+  req : Desc                 -- requested descriptor (SignBlob: what the generator returns)
+  pluginErr : PluginErr
+  -- DescribeKey
+  dkKeyIdOk : Bool
+  dkKeySpec : String         -- wire text of the key spec
+  -- GenerateEnvelope
+  echoOk : Bool              -- response.SignatureEnvelopeType = requested
+  envFmt : Fmt               -- the format really produced
+  garbage : Bool             -- envelope bytes that do not parse
+  ctypeOk : Bool             -- protected content type = Notary payload type
+  payload : JVal
+  -- GenerateSignature
+  gsKeyIdOk : Bool
+  gsAlg : String             -- response.SigningAlgorithm (never read by the code)
+  -- both
+  sigMode : SigMode
+  chain : Chain
+  dupKeys : Bool             -- redundant: `payload.dupDeep` (checked by a clause)
+  deriving Repr, FromJson
+
+inductive Outcome | sig | err | panic
+  deriving DecidableEq, Repr, FromJson, ToJson
+
+structure Obs where
+  outcome : Outcome
+  payloadOk : Bool   -- sig: the returned envelope carries exactly the checked payload bytes
+  leafOk : Bool      -- sig: signerInfo's leaf certificate is the leaf of the plugin's chain
+  deriving DecidableEq, Repr, FromJson, ToJson
+
+def errObs : Obs := ⟨.err, false, false⟩
+def sigObs : Obs := ⟨.sig, true, true⟩
+def panicObs : Obs := ⟨.panic, false, false⟩
+
+/-! ### codecs (tables regenerated from plugin/proto/algorithm.go) -/
+
+abbrev Spec := String × Nat
+
+def KS.spec : KS → Spec
+  | .rsa2048 => ("RSA", 2048) | .rsa3072 => ("RSA", 3072) | .rsa4096 => ("RSA", 4096)
+  | .ec256 => ("EC", 256) | .ec384 => ("EC", 384) | .ec521 => ("EC", 521)
+
+def KS.next : KS → KS
+  | .rsa2048 => .rsa3072 | .rsa3072 => .rsa4096 | .rsa4096 => .ec256
+  | .ec256 => .ec384 | .ec384 => .ec521 | .ec521 => .rsa2048
+
+def encodeKeySpec (k : Spec) : Option String := Facts.c18EncodeKeySpec.lookup k
+def decodeKeySpec (s : String) : Option Spec := Facts.c18DecodeKeySpec.lookup s
+def hashFromKeySpec (k : Spec) : Option String := Facts.c18HashFromKeySpec.lookup k
+def encodeSigAlg (a : String) : Option String := Facts.c18EncodeSigAlg.lookup a
+def decodeSigAlg (s : String) : Option String := Facts.c18DecodeSigAlg.lookup s
+
+/-- notation-core-go `KeySpec.SignatureAlgorithm()` (library, not regenerated) -/
+def sigAlgOf : Spec → Option String
+  | ("RSA", 2048) => some "PS256" | ("RSA", 3072) => some "PS384" | ("RSA", 4096) => some "PS512"
+  | ("EC", 256) => some "ES256" | ("EC", 384) => some "ES384" | ("EC", 521) => some "ES512"
+  | _ => none
+
+/-- notation-core-go `Algorithm.Hash()` as (crypto hash name, plugin wire name) -/
+def hashOfAlg : String → Option (String × String)
+  | "PS256" => some ("SHA256", "SHA-256") | "ES256" => some ("SHA256", "SHA-256")
+  | "PS384" => some ("SHA384", "SHA-384") | "ES384" => some ("SHA384", "SHA-384")
+  | "PS512" => some ("SHA512", "SHA-512") | "ES512" => some ("SHA512", "SHA-512")
+  | _ => none
+
+/-- `getDescriptor`: the digest algorithm SignBlob hands to the descriptor generator -/
+def blobDigestAlg (k : Spec) : Option String :=
+  match sigAlgOf k with
+  | some a => match hashOfAlg a with
+    | some (h, _) => Facts.c18DigestAlgorithms.lookup h
+    | none => none
+  | none => none
+
+/-! ### the checks, as coded -/
+
+/-- `isPayloadDescriptorValid`: `content.Equal` on (size, digest, mediaType), then every
+original annotation present with the same value -/
+def descValid (req : Desc) (d : GoDesc) : Bool :=
+  d.size == req.size && d.digest == req.digest && d.mediaType == req.mediaType &&
+  req.annotations.all (fun kv => d.annotations.lookup kv.1 == some kv.2)
+
+inductive Scan | panic | unknown (keys : List String)
+  deriving Repr
+
+def isKnownKey (k : String) : Bool := Facts.c18KnownDescriptorKeys.contains k
+
+/-- `areUnknownAttributesAdded` on the map decoding of the payload (exact keys, last wins).
+`checked`: the type assertion is the two-value form guarded by `if !ok { return … }`. -/
+def scanUnknown (checked : Bool) : JVal → Scan
+  | .obj kvs =>
+    match lookupLast Facts.c18TargetKey kvs with
+    | some (.obj d) =>
+      .unknown ((keysOf d).filter (fun k => !isKnownKey k) ++
+                (keysOf kvs).filter (fun k => k != Facts.c18TargetKey))
+    | _ => if checked then .unknown (keysOf kvs) else .panic
+  | _ => if checked then .unknown [] else .panic     -- nil map: no "targetArtifact" entry
+
+/-- the signature verifies under the leaf of the chain (it was made with the key that leaf
+certifies: the plugin's key under its own chains, or the other key under the other key's
+chain), and core-go accepts the chain -/
+def verifyOk (i : Input) : Bool :=
+  (i.sigMode == .good && (i.chain == .ok || i.chain == .selfSigned)) ||
+  (i.sigMode == .otherKey && i.chain == .otherKey)
+
+/-- key spec of the leaf certificate of the answered chain -/
+def leafSpec (i : Input) : Option Spec :=
+  match i.chain with
+  | .ok | .selfSigned | .otherKey => some i.key.spec
+  | .otherSpec => some i.key.next.spec
+  | .empty | .garbage => none
+
+/-- `getKeySpec`: DescribeKey, key id echo, `proto.DecodeKeySpec` -/
+def getKeySpec (i : Input) : Option Spec :=
+  if i.pluginErr == .describeKey then none
+  else if !i.dkKeyIdOk then none
+  else decodeKeySpec i.dkKeySpec
+
+/-- `generateSignatureEnvelope` -/
+def envelopePath (i : Input) : Obs :=
+  if i.pluginErr == .generate then errObs
+  else if !i.echoOk then errObs
+  else if i.garbage || i.envFmt != i.format then errObs       -- signature.ParseEnvelope
+  else if !verifyOk i then errObs                             -- sigEnv.Verify()
+  else if !i.ctypeOk then errObs                              -- ValidatePayloadContentType
+  else match goDecodePayload i.payload with
+    | none => errObs
+    | some d =>
+      if Facts.c18DuplicateKeysRejected && i.payload.dupDeep then errObs    -- findDuplicateKey
+      else if !descValid i.req d then errObs
+      else match scanUnknown Facts.c18AssertionChecked i.payload with
+        | .panic => panicObs
+        | .unknown ks => if ks.isEmpty then sigObs else errObs
+
+/-- `generateSignature` → `GenericSigner.Sign` with `pluginPrimitiveSigner` -/
+def rawPath (i : Input) (ks : Spec) : Obs :=
+  match encodeKeySpec ks, hashFromKeySpec ks, sigAlgOf ks with
+  | some _, some _, some alg =>
+    if i.pluginErr == .generate then errObs
+    else if !i.gsKeyIdOk then errObs
+    else if i.chain == .garbage then errObs                   -- parseCertChain
+    else match leafSpec i with
+      | none => errObs                                        -- empty chain
+      | some l =>
+        if sigAlgOf l != some alg then errObs                 -- validateCertificateChain
+        else if !verifyOk i then errObs                       -- sigEnv.Verify()
+        else sigObs
+  | _, _, _ => errObs
+
+def hasRaw (c : Cap) : Bool := c == .raw || c == .both
+def hasEnvelope (c : Cap) : Bool := c == .envelope || c == .both
+
+def run (i : Input) : Obs :=
+  if i.pluginErr == .metadata then errObs
+  else match i.api with
+  | .sign =>
+    if hasRaw i.cap then
+      match getKeySpec i with
+      | none => errObs
+      | some ks => rawPath i ks
+    else if hasEnvelope i.cap then envelopePath i
+    else errObs
+  | .signBlob =>
+    match getKeySpec i with
+    | none => errObs
+    | some ks =>
+      match blobDigestAlg ks with
+      | none => errObs
+      | some _ =>
+        if hasRaw i.cap then rawPath i ks
+        else if hasEnvelope i.cap then envelopePath i
+        else errObs
+
+/-! ### the property -/
+
+/-- what a map-based reader (exact keys, last member wins, `null`/absent = zero value) makes of
+the payload -/
+def exactStr : Option JVal → Option String
+  | none => some ""
+  | some .null => some ""
+  | some (.str s) => some s
+  | _ => none
+
+def exactInt : Option JVal → Option Int
+  | none => some 0
+  | some .null => some 0
+  | some (.num n) => some n
+  | _ => none
+
+def exactAnn : Option JVal → Option (List (String × String))
+  | none => some []
+  | some .null => some []
+  | some (.obj kvs) => decAnnEntries [] kvs
+  | _ => none
+
+/-- `lk`: how the reader resolves a member name (last member wins / first member wins) -/
+def exactDescBy (lk : String → Members → Option JVal) (d : Members) : Option GoDesc :=
+  match exactStr (lk "mediaType" d), exactStr (lk "digest" d),
+        exactInt (lk "size" d), exactAnn (lk "annotations" d) with
+  | some m, some g, some s, some a => some ⟨m, g, s, a⟩
+  | _, _, _, _ => none
+
+def exactViewBy (lk : String → Members → Option JVal) : JVal → Option GoDesc
+  | .null => some {}
+  | .obj kvs =>
+    match lk "targetArtifact" kvs with
+    | none => some {}
+    | some .null => some {}
+    | some (.obj d) => exactDescBy lk d
+    | _ => none
+  | _ => none
+
+def lookupFirst (k : String) (m : Members) : Option JVal := m.lookup k
+
+/-- a last-member-wins reader (Go / JavaScript / Python maps) -/
+def exactView : JVal → Option GoDesc := exactViewBy lookupLast
+/-- a first-member-wins reader -/
+def firstView : JVal → Option GoDesc := exactViewBy lookupFirst
+
+def sees (req : Desc) : Option GoDesc → Bool
+  | some d => descValid req d
+  | none => false
+
+/-- duplicate member names at the top level or in the (last) target object -/
+def hasDup : JVal → Bool
+  | .obj kvs =>
+    !nodupB (keysOf kvs) ||
+      (match lookupLast "targetArtifact" kvs with
+       | some (.obj d) => !nodupB (keysOf d)
+       | _ => false)
+  | _ => false
+
+/-- payload conditions: only the exact key `targetArtifact` at the top level … -/
+def topKeysExact : JVal → Bool
+  | .obj kvs => (keysOf kvs).all (· == "targetArtifact")
+  | _ => true
+
+/-- … holding an object (when present at all) whose member names are all names of OCI descriptor
+fields (the specification's own list `descFields`, not the list regenerated from the code) -/
+def descKeysKnown : JVal → Bool
+  | .obj kvs =>
+    match lookupLast "targetArtifact" kvs with
+    | some (.obj d) => (keysOf d).all descFields.contains
+    | none => true
+    | _ => false
+  | _ => true
+
+inductive Path | raw | envelope | refused
+  deriving DecidableEq, Repr
+
+def pathOf (i : Input) : Path :=
+  if hasRaw i.cap then .raw else if hasEnvelope i.cap then .envelope else .refused
+
+/-- the checks the property demands before a signature may be returned -/
+def required (i : Input) : Bool :=
+  match pathOf i with
+  | .refused => false
+  | .envelope =>
+    i.echoOk && !i.garbage && i.envFmt == i.format &&   -- requested format
+    verifyOk i &&                                       -- verifies under its own chain
+    i.ctypeOk &&                                        -- Notary payload type
+    sees i.req (goDecodePayload i.payload) &&           -- the Go reader sees the requested descriptor
+    topKeysExact i.payload && descKeysKnown i.payload   -- nothing unknown, exact spelling
+  | .raw =>
+    i.dkKeyIdOk && i.gsKeyIdOk &&                       -- answered for the requested key id
+    decodeKeySpec i.dkKeySpec == some i.key.spec &&     -- key spec = the key that signed
+    verifyOk i                                          -- chain and signature fit that key
+
+def reqWellFormed (r : Desc) : Bool := nodupB (r.annotations.map (·.1)) && int64Ok r.size
+
+def clauses (i : Input) (o : Obs) : Clauses :=
+  [ ("input_wellformed", reqWellFormed i.req && i.dupKeys == i.payload.dupDeep),
+    ("never_panics", o.outcome != .panic),
+    ("signature_only_if_checked", o.outcome != .sig || required i),
+    ("exact_key_readers_see_requested",
+      o.outcome != .sig || pathOf i != .envelope ||
+        (sees i.req (exactView i.payload) && sees i.req (firstView i.payload))),
+    ("unambiguous_payload",
+      o.outcome != .sig || pathOf i != .envelope || !i.payload.dupDeep),
+    ("returned_signature_is_the_checked_one", o.outcome != .sig || (o.payloadOk && o.leafOk)) ]
+
+def Holds (i : Input) (o : Obs) : Bool := (clauses i o).holds
+
+def judge := judgeWith run clauses
 
 end NotationModel.C18
